@@ -305,8 +305,9 @@ impl Case {
         for s in &self.steps {
             match s {
                 Step::Begin => break,
-                Step::Op(op) if op.sql(&self.spec).is_some() && op.kind() != "insert" => {
-                    out.insert(op.kind().to_string());
+                Step::Op(op) if op.sql(&self.spec).is_some() && !op.kind().starts_with("insert") => {
+                    // whether a TOASTed value exists at the snapshot is a measured fact of its own (`toast_at_snapshot`)
+                    out.insert(op.kind().trim_end_matches("_toast").to_string());
                 }
                 _ => {}
             }
@@ -739,6 +740,10 @@ impl H {
             _ => None,
         }
     }
+    /// size of table `t`'s file in pages (a growth during ROLLBACK means the undo split a B-tree node)
+    fn table_pages(&self) -> u64 {
+        std::fs::metadata(self.path.join("root").join("t.tbd")).map(|m| m.len() / 16384).unwrap_or(0)
+    }
     /// root page of table `t` as recorded in its file header (measured, for the signature)
     fn table_root(&self) -> Option<u32> {
         let p = self.path.join("root").join("t.tbd");
@@ -783,6 +788,10 @@ fn observe(h: &H, case: &Case) -> Obs {
     });
     let lookups = lookup_sqls(case).into_iter().map(|(class, sql)| Lookup { class, res: h.query(&sql), sql }).collect();
     Obs { dump, count, lookups }
+}
+
+fn has_toast(o: &Obs) -> bool {
+    o.dump.as_ref().map(|rows| rows.iter().any(|r| r.iter().any(|v| matches!(v, V::Text(s) if s.len() > TOAST)))).unwrap_or(false)
 }
 
 #[derive(Clone, Debug)]
@@ -887,6 +896,11 @@ struct Out {
     /// op kinds (and failed statements) between the snapshot and the rollback that was judged
     undone: BTreeSet<String>,
     root_at_rollback: Option<u32>,
+    pages_at_rollback: u64,
+    /// the table file grew while rolling back (the undo split a node)
+    grew_during_undo: bool,
+    /// the snapshot the rollback was compared with contained a value above the TOAST threshold
+    toast_at_snapshot: bool,
     rollbacks_judged: u64,
     savepoint_rollbacks: u64,
     max_depth: usize,
@@ -1044,6 +1058,7 @@ fn run_case(scratch: &Scratch, tag: &str, case: &Case) -> Out {
                     None => continue, // savepoint removed by the shrinker
                 };
                 out.root_at_rollback = h.table_root();
+                out.pages_at_rollback = h.table_pages();
                 out.via = "rollback_to";
                 out.at_step = i;
                 out.undone = undone_between(case, from, i, &failed);
@@ -1053,7 +1068,9 @@ fn run_case(scratch: &Scratch, tag: &str, case: &Case) -> Out {
                 }
                 out.rollbacks_judged += 1;
                 out.savepoint_rollbacks += 1;
+                out.grew_during_undo = h.table_pages() > out.pages_at_rollback;
                 let now = observe(&h, case);
+                out.toast_at_snapshot = has_toast(&snap);
                 out.viols = compare_obs(&snap, &now, "rows_restored", "count_star_restored", "index_lookup_restored");
                 if !out.viols.is_empty() {
                     return out;
@@ -1061,6 +1078,7 @@ fn run_case(scratch: &Scratch, tag: &str, case: &Case) -> Out {
             }
             Step::Rollback | Step::DropReopen | Step::DropClone => {
                 out.root_at_rollback = h.table_root();
+                out.pages_at_rollback = h.table_pages();
                 out.at_step = i;
                 out.undone = undone_between(case, begin_at, i, &failed);
                 match st {
@@ -1098,7 +1116,9 @@ fn run_case(scratch: &Scratch, tag: &str, case: &Case) -> Out {
                     }
                 }
                 out.rollbacks_judged += 1;
+                out.grew_during_undo = h.table_pages() > out.pages_at_rollback;
                 let now = observe(&h, case);
+                out.toast_at_snapshot = has_toast(&obs0);
                 out.viols = compare_obs(&obs0, &now, "rows_restored", "count_star_restored", "index_lookup_restored");
                 if !out.viols.is_empty() {
                     return out;
@@ -1195,13 +1215,17 @@ fn remove_step(case: &Case, i: usize) -> Option<Case> {
     Some(c)
 }
 
-fn shrink(scratch: &Scratch, case: &Case, assertion: &str, cause: &str, budget: usize) -> (Case, Out) {
+fn shrink(scratch: &Scratch, case: &Case, assertion: &str, cause: &str, budget: usize, hard_deadline: std::time::Instant) -> (Case, Out, bool) {
     let mut n = 0usize;
     let mut cur = case.clone();
     let mut cur_out = run_case(scratch, "shrink", &cur);
     let base_failed = cur_out.failed_in_txn;
     let fires = |c: &Case, n: &mut usize| -> Option<Out> {
         *n += 1;
+        if std::time::Instant::now() > hard_deadline {
+            *n += 1_000_000; // out of time: every further candidate is refused, the loops below stop on the budget
+            return None;
+        }
         let o = run_case(scratch, "shrink", c);
         if o.failed_in_txn <= base_failed && o.viols.iter().any(|v| v.assertion == assertion && v.cause == cause) {
             Some(o)
@@ -1210,7 +1234,7 @@ fn shrink(scratch: &Scratch, case: &Case, assertion: &str, cause: &str, budget: 
         }
     };
     if !cur_out.viols.iter().any(|v| v.assertion == assertion && v.cause == cause) {
-        return (cur, cur_out);
+        return (cur, cur_out, false);
     }
     // everything after the step at which the violation showed is irrelevant (except the later inserts)
     if cur_out.via != "later" && cur_out.at_step + 1 < cur.steps.len() {
@@ -1353,7 +1377,8 @@ fn shrink(scratch: &Scratch, case: &Case, assertion: &str, cause: &str, budget: 
             }
         }
     }
-    (cur, cur_out)
+    let complete = n < 1_000_000;
+    (cur, cur_out, complete)
 }
 
 fn signature(assertion: &str, cause: &str, case: &Case, out: &Out) -> String {
@@ -1372,10 +1397,15 @@ fn signature(assertion: &str, cause: &str, case: &Case, out: &Out) -> String {
     } else {
         out.via
     };
-    let root = match out.root_at_rollback {
-        Some(r) if r != 1 => "+root_moved",
-        _ => "",
-    };
+    let root = format!(
+        "{}{}",
+        match out.root_at_rollback {
+            Some(r) if r != 1 => "+root_moved",
+            _ if out.grew_during_undo => "+undo_split_a_node",
+            _ => "",
+        },
+        if out.toast_at_snapshot { "+toast_at_snapshot" } else { "" }
+    );
     let pre = case.pre_kinds();
     let pre = if pre.is_empty() { String::new() } else { format!("/pre:{}", pre.into_iter().collect::<Vec<_>>().join("+")) };
     format!("C07/{}/undo:{}/{}/{}{}/{}{}", assertion, if undone.is_empty() { "nothing".to_string() } else { undone.join("+") }, cause, case.spec.traits(), root, via, pre)
@@ -1469,8 +1499,8 @@ fn scripted(scratch: &Scratch, ctx: &mut Ctx) {
         let db = h.db.as_ref().unwrap();
         match catch(|| body(db)) {
             Ok(Ok(())) => {}
-            Ok(Err(_)) | Err(_) => {
-                ctx.count(&format!("scripted_body_statement_failed_not_judged:{}", name), 1);
+            Ok(Err(why)) | Err(why) => {
+                ctx.count(&format!("scripted_body_statement_failed_not_judged:{}:{}", name, err_class(&why)), 1);
                 let _ = h.exec("ROLLBACK");
                 continue;
             }
@@ -1508,6 +1538,11 @@ fn scripted(scratch: &Scratch, ctx: &mut Ctx) {
 /// One directed minimal case: a fixed 6-row table (optionally on top of a few hundred rows, so that the
 /// B-tree root has moved off page 1), BEGIN, one statement of kind `op`, and one way of rolling back.
 fn matrix_case(spec: Spec, op: &str, via: &str, deep: bool) -> Option<Case> {
+    matrix_case_t(spec, op, via, deep, false)
+}
+
+/// `toast_base`: the row the statement touches already holds a TOASTed value before BEGIN
+fn matrix_case_t(spec: Spec, op: &str, via: &str, deep: bool, toast_base: bool) -> Option<Case> {
     let mut steps = vec![];
     let mut ctr = 0u64;
     if deep {
@@ -1523,7 +1558,7 @@ fn matrix_case(spec: Spec, op: &str, via: &str, deep: bool) -> Option<Case> {
         }
     }
     let base: Vec<R> = (0..6u32)
-        .map(|i| R { key: 11 + i, u: 101 + i as i64, a: if i == 5 { None } else { Some([1, 2, 3, 1, 2][i as usize]) }, p: Some(pad(900 + i as u64, if i == 4 { 300 } else { 8 })) })
+        .map(|i| R { key: 11 + i, u: 101 + i as i64, a: if i == 5 { None } else { Some([1, 2, 3, 1, 2][i as usize]) }, p: Some(pad(900 + i as u64, if i == 2 && toast_base { 1500 } else if i == 4 { 300 } else { 8 })) })
         .collect();
     steps.push(Step::Op(Op::Insert(base[..3].to_vec())));
     steps.push(Step::Op(Op::Insert(base[3..].to_vec())));
@@ -1596,45 +1631,78 @@ fn matrix_case(spec: Spec, op: &str, via: &str, deep: bool) -> Option<Case> {
 
 const OPS: [&str; 8] = ["insert", "insert_toast", "update_a", "update_payload", "update_payload_toast", "update_unique_col", "update_key", "delete"];
 
-fn matrix(quick: bool) -> Vec<Case> {
-    let mut out = vec![];
+/// parameters of a matrix cell: (table, statement kind, way of rolling back, deep table, TOASTed base row)
+type MP = (Spec, &'static str, &'static str, bool, bool);
+
+fn matrix(quick: bool) -> Vec<MP> {
+    let mut out: Vec<MP> = vec![];
     let keys = [KeyKind::NoPk, KeyKind::IntPk, KeyKind::TextPk];
     // every table variant x every statement kind, plain ROLLBACK
     for key in keys {
         for uniq in [false, true] {
             for idx_a in [false, true] {
                 for op in OPS {
-                    out.extend(matrix_case(Spec { key, uniq, idx_a }, op, "rollback", false));
+                    out.push((Spec { key, uniq, idx_a }, op, "rollback", false, false));
                 }
             }
         }
     }
     // the other ways of rolling back, root moved before BEGIN, root split inside the transaction
+    // (run on the table with all features; a failing cell is then reduced to the features it needs)
     for key in keys {
         let full = Spec { key, uniq: true, idx_a: true };
+        let bare = Spec { key, uniq: false, idx_a: false };
         for via in ["rollback_to", "release_nested", "drop_reopen", "drop_clone"] {
             for op in OPS {
                 if quick && matches!(op, "insert_toast" | "update_payload_toast") {
                     continue;
                 }
-                out.extend(matrix_case(full, op, via, false));
+                out.push((full, op, via, false, false));
             }
         }
         for op in ["insert", "update_a", "update_payload", "update_key", "delete"] {
-            out.extend(matrix_case(full, op, "rollback", true));
+            out.push((full, op, "rollback", true, false));
             if !quick {
-                out.extend(matrix_case(Spec { key, uniq: false, idx_a: false }, op, "rollback", true));
-                out.extend(matrix_case(full, op, "drop_reopen", true));
+                out.push((bare, op, "rollback", true, false));
+                out.push((full, op, "drop_reopen", true, false));
             }
         }
-        out.extend(matrix_case(full, "insert_split", "rollback", false));
-        out.extend(matrix_case(Spec { key, uniq: false, idx_a: false }, "insert_split", "rollback", false));
+        for op in ["update_a", "update_payload", "update_payload_toast", "delete"] {
+            out.push((bare, op, "rollback", false, true));
+        }
+        out.push((full, "insert_split", "rollback", false, false));
+        out.push((bare, "insert_split", "rollback", false, false));
         if !quick {
-            out.extend(matrix_case(full, "insert_split", "rollback_to", false));
-            out.extend(matrix_case(full, "insert_split", "drop_reopen", false));
+            out.push((full, "insert_split", "rollback_to", false, false));
+            out.push((full, "insert_split", "drop_reopen", false, false));
         }
     }
+    out.retain(|p| matrix_case_t(p.0, p.1, p.2, p.3, p.4).is_some());
     out
+}
+
+/// the same cell on a table with fewer features, as long as the same assertion fails for the same cause
+fn reduce_features(scratch: &Scratch, p: MP, assertion: &str, cause: &str) -> Option<(Case, Out)> {
+    let mut spec = p.0;
+    let mut best = None;
+    for f in 0..4 {
+        let mut s2 = spec;
+        match f {
+            0 if s2.uniq => s2.uniq = false,
+            1 if s2.idx_a => s2.idx_a = false,
+            2 if s2.key != KeyKind::NoPk => s2.key = KeyKind::NoPk,
+            3 if s2.key == KeyKind::TextPk => s2.key = KeyKind::IntPk,
+            _ => continue,
+        }
+        if let Some(case) = matrix_case_t(s2, p.1, p.2, p.3, p.4) {
+            let out = run_case(scratch, "reduce", &case);
+            if out.viols.iter().any(|v| v.assertion == assertion && v.cause == cause) {
+                spec = s2;
+                best = Some((case, out));
+            }
+        }
+    }
+    best
 }
 
 /// a violation reduced to the facts that identify its cause
@@ -1646,6 +1714,8 @@ struct Cell {
     ops: BTreeSet<String>,
     via: String,
     root_moved: bool,
+    undo_split: bool,
+    toast: bool,
     /// non-insert statement kinds before BEGIN
     pre: BTreeSet<String>,
     sig: String,
@@ -1682,6 +1752,8 @@ fn cell_of(v: &Viol, case: &Case, out: &Out) -> Cell {
         ops: undone_of(case, out),
         via: via_name(case, out),
         root_moved: matches!(out.root_at_rollback, Some(r) if r != 1),
+        undo_split: out.grew_during_undo,
+        toast: out.toast_at_snapshot,
         pre: case.pre_kinds(),
         sig: signature(&v.assertion, &v.cause, case, out),
         script: case.script(),
@@ -1714,6 +1786,8 @@ fn explains(y: &Cell, x: &Cell) -> bool {
         && via_le(&y.via, &x.via)
         && (!y.root_moved || x.root_moved)
         && y.pre.is_subset(&x.pre)
+        && (!y.undo_split || x.undo_split || x.root_moved)
+        && (!y.toast || x.toast)
 }
 
 fn rank(c: &Cell) -> (usize, usize, usize, usize, usize, String) {
@@ -1724,7 +1798,7 @@ fn rank(c: &Cell) -> (usize, usize, usize, usize, usize, String) {
     };
     // statement kinds that another kind subsumes (see op_le) count as more complex
     let special = c.ops.iter().filter(|o| !matches!(o.as_str(), "insert" | "update_payload" | "delete")).count();
-    (c.ops.len() + c.root_moved as usize + c.pre.len(), special, k + c.spec.uniq as usize + c.spec.idx_a as usize, if c.via == "rollback" || c.via == "later_after_rollback" { 0 } else { 1 }, k, c.sig.clone())
+    (c.ops.len() + c.root_moved as usize + c.undo_split as usize + c.toast as usize + c.pre.len(), special, k + c.spec.uniq as usize + c.spec.idx_a as usize, if c.via == "rollback" || c.via == "later_after_rollback" { 0 } else { 1 }, k, c.sig.clone())
 }
 
 // -------------------------------------------------------------------------------------------- run
@@ -1816,13 +1890,14 @@ pub fn run(a: &Args) -> i32 {
     scripted(&scratch, &mut ctx);
 
     // ---- (1) matrix
-    let mcases = matrix(quick);
-    let mres = run_all(&scratch, &mcases, threads, secs(if quick { 24 } else { 200 }), "m");
+    let mparams = matrix(quick);
+    let mcases: Vec<Case> = mparams.iter().filter_map(|p| matrix_case_t(p.0, p.1, p.2, p.3, p.4)).collect();
+    let mres = run_all(&scratch, &mcases, threads, secs(if quick { 30 } else { 200 }), "m");
     if mres.len() < mcases.len() {
         ctx.count("matrix_cells_skipped_time_budget", (mcases.len() - mres.len()) as u64);
     }
     let mut cells: Vec<Cell> = vec![];
-    let mut mviol: Vec<(Cell, J)> = vec![];
+    let mut mviol: Vec<(Cell, J, MP)> = vec![];
     for (i, out) in &mres {
         let case = &mcases[*i];
         tally(&mut ctx, case, out);
@@ -1832,13 +1907,30 @@ pub fn run(a: &Args) -> i32 {
         }
         for v in &out.viols {
             let c = cell_of(v, case, out);
-            mviol.push((c.clone(), v.detail.clone()));
+            mviol.push((c.clone(), v.detail.clone(), mparams[*i]));
             cells.push(c);
         }
     }
     cells.sort_by_key(rank);
+    // a failing cell that no simpler failing cell explains, but that ran on a table with features: reduce the features
+    let mut reduced: Vec<Cell> = vec![];
+    for (c, _, p) in &mviol {
+        let has_features = c.spec.uniq || c.spec.idx_a || c.spec.key != KeyKind::NoPk;
+        let explained = cells.iter().chain(reduced.iter()).any(|y| y.sig != c.sig && explains(y, c));
+        if has_features && !explained && std::time::Instant::now() < secs(if quick { 36 } else { 230 }) {
+            if let Some((case2, out2)) = reduce_features(&scratch, *p, &c.assertion, &c.cause) {
+                ctx.count("matrix_cells_reduced_to_fewer_table_features", 1);
+                tally(&mut ctx, &case2, &out2);
+                if let Some(v2) = out2.viols.iter().find(|v| v.assertion == c.assertion && v.cause == c.cause) {
+                    reduced.push(cell_of(v2, &case2, &out2));
+                }
+            }
+        }
+    }
+    cells.extend(reduced);
+    cells.sort_by_key(rank);
     let mut by_sig: BTreeMap<String, u64> = BTreeMap::new();
-    for (c, detail) in &mviol {
+    for (c, detail, _) in &mviol {
         let by = cells.iter().find(|y| explains(y, c)).unwrap_or(c);
         *by_sig.entry(by.sig.clone()).or_insert(0) += 1;
         let detail = json!({"matrix_cell": c.sig, "script": c.script, "detail": detail, "simplest_failing_cell": by.script});
@@ -1847,7 +1939,7 @@ pub fn run(a: &Args) -> i32 {
     }
 
     // ---- (2) generated histories
-    let (n_small, n_bulk) = if quick { (300usize, 6usize) } else { (12000, 150) };
+    let (n_small, n_bulk) = if quick { (240usize, 6usize) } else { (12000, 150) };
     let mut seeds = Rng::derive(a.seed, 7);
     let every = (n_small + n_bulk) / n_bulk;
     let cases: Vec<Case> = (0..n_small + n_bulk)
@@ -1864,11 +1956,11 @@ pub fn run(a: &Args) -> i32 {
             gen_case(seeds.next(), shape)
         })
         .collect();
-    let res = run_all(&scratch, &cases, threads, secs(if quick { 36 } else { 420 }), "w");
+    let res = run_all(&scratch, &cases, threads, secs(if quick { 38 } else { 420 }), "w");
     if res.len() < cases.len() {
         ctx.count("generated_cases_skipped_time_budget", (cases.len() - res.len()) as u64);
     }
-    let shrink_deadline = secs(if quick { 50 } else { 560 });
+    let shrink_deadline = secs(if quick { 43 } else { 550 });
     let mut pending: Vec<(usize, Viol, Cell)> = vec![];
     for (i, out) in &res {
         let case = &cases[*i];
@@ -1912,13 +2004,25 @@ pub fn run(a: &Args) -> i32 {
             continue;
         }
         ctx.count("violations_shrunk", 1);
-        let (small, sout) = shrink(&scratch, &cases[i], &v.assertion, &v.cause, if quick { 36 } else { 140 });
-        let (sc, sdetail) = match sout.viols.iter().find(|x| x.assertion == v.assertion && x.cause == v.cause) {
+        let (small, sout, complete) = shrink(&scratch, &cases[i], &v.assertion, &v.cause, if quick { 36 } else { 140 }, secs(if quick { 47 } else { 575 }));
+        let (mut sc, sdetail) = match sout.viols.iter().find(|x| x.assertion == v.assertion && x.cause == v.cause) {
             Some(sv) => (cell_of(sv, &small, &sout), sv.detail.clone()),
             None => (c.clone(), v.detail.clone()), // not reproducible on re-run: keep the original facts
         };
+        if !complete {
+            // the time budget ended in the middle of the minimisation: the half-shrunk facts are not a stable signature
+            ctx.count("violations_not_shrunk_time_budget", 1);
+            sc.sig = format!("C07/{}/not_minimised/{}", v.assertion, v.cause);
+        }
         // the minimal case may itself be explained by a matrix cell (it needed the generated context only by accident)
         let by = cells.iter().find(|y| explains(y, &sc)).cloned().unwrap_or_else(|| sc.clone());
+        if !complete {
+            let detail = json!({"generated_case": i, "partly_minimised_script": sc.script, "detail": sdetail, "original_script": c.script});
+            *by_sig.entry(by.sig.clone()).or_insert(0) += 1;
+            show(&mut shown, &by.sig, &detail);
+            ctx.violation(&v.assertion, &by.sig, detail);
+            continue;
+        }
         *by_sig.entry(by.sig.clone()).or_insert(0) += 1;
         let later: Vec<String> = if sout.via == "later" { small.later.iter().map(|r| format!("INSERT INTO t VALUES {}", row_sql(&small.spec, r))).collect() } else { vec![] };
         let detail = json!({"generated_case": i, "minimal_script": sc.script, "minimal_later_inserts": later, "minimal_detail": sdetail, "table_root_page_at_rollback": sout.root_at_rollback, "statements_failed_inside_txn": sout.failed_kinds, "original_script": c.script, "original_detail": v.detail});
